@@ -1025,7 +1025,7 @@ def run(ctx: core.Ctx):
                 "C = before/after on the same objects; every case carries white-box snapshots of ALL live DataFrames "
                 "(after the state is built, after the follow-up, after each observation round); non-trivial = the receiver is "
                 "not a freshly created DataFrame (so the wrapper may pass the receiver itself); distinct by enumeration",
-        "corpus_scenarios_run_first": len(corpus()), "states": sorted(hist_state), "alphabet_size": len([k for k, a in ALPHABET.items() if a["group"] not in ("builder", "observe")]),
+        "corpus_scenarios_run_first": len(corpus()), "state_names": sorted(hist_state), "alphabet_size": len([k for k, a in ALPHABET.items() if a["group"] not in ("builder", "observe")]),
         "histogram_state": hist_state, "histogram_method": hist_method, "histogram_group": hist_group,
         "histogram_protocol": hist_proto, "skipped": len(skipped), "follow_up_raised": n_raise,
         "white_box_agree": n_agree, "follow_up_in_theorem_domain": n_dom, "scenarios_where_existing_changed": n_changed,
